@@ -5,7 +5,7 @@
    All quantifiers are unbounded: base sizes, prices, coins are arbitrary N (also >= 2^64: no range premise
    is needed), outputs have arbitrary address lengths, bundles, datum and script sizes; fee figures and
    the bundles packed into change outputs are universally quantified oracle arguments. *)
-From CSL Require Num.Value Builder.Totals Builder.Change Builder.ChangeProofs MinAda.ChangeInstance.
+From CSL Require Num.Value Builder.Totals Builder.Change Builder.ChangeProofs MinAda.ChangeInstance Collateral.Collateral Builder.MoreEntry MinAda.BuildScenario MinAda.EntryInstance.
 From CSL Require Import Base.Prelude Base.U64 Cbor.Head Cbor.HeadProofs
   Codec.Schema Ledger.Schemas MinAda.OutputSize MinAda.MinAda MinAda.Change MinAda.MinAdaProofs MinAda.ChangeProofs MinAda.SchemaTie MinAda.TxSize.
 Local Open Scope N_scope.
@@ -201,6 +201,39 @@ Theorem C07_change_on_builder_model :
 Proof. intros O orc e SE fuel addr extra s o b. apply ChangeInstance.add_change_all_ok. exact SE. Qed.
 Print Assumptions C07_change_on_builder_model.
 
+(* the other balancing entry points on the builder model.  add_inputs_from_and_change (selection = oracle answer, then
+   add_change, then retries of add_change on the state a failed attempt left -- the invariant "every output within the
+   limits, or the fee already fixed" survives failing runs); add_inputs_from_and_change_with_collateral_return
+   (MoreEntry.percent_entry): on success every output is within the limits AND the stored collateral return meets min ADA
+   and max_value_size, because it is stored through set_total_collateral_and_return's admission test *)
+Theorem C07_select_and_change_on_builder_model :
+  forall (O : Type) (orc : @Change.oracle O) (e : ChangeInstance.cenv),
+  ChangeInstance.sizes_exact e orc ->
+  forall fuel utxos addr extra (s : Totals.state) (o : O) (b : bool),
+  ChangeInstance.all_ok e s ->
+  Change.out_res (Change.add_inputs_from_and_change orc fuel utxos addr extra s o) = Ok b ->
+  ChangeInstance.all_ok e (Change.out_st (Change.add_inputs_from_and_change orc fuel utxos addr extra s o)).
+Proof.
+  intros O orc e SE fuel utxos addr extra s o b A R.
+  destruct (ChangeInstance.add_inputs_from_and_change_ok orc e SE fuel utxos addr extra s o (or_introl A) I) as [_ Q].
+  rewrite R in Q. exact Q.
+Qed.
+Print Assumptions C07_select_and_change_on_builder_model.
+
+Theorem C07_collateral_return_entry_point :
+  forall (O : Type) (orc : @Change.oracle O) (ask_col : Collateral.output -> O -> result N * O) (e : ChangeInstance.cenv),
+  ChangeInstance.sizes_exact e orc -> EntryInstance.col_exact e ask_col ->
+  forall fuel utxos addr extra addr_b pct (s : Totals.state) (c : MoreEntry.colstate) (o : O),
+  ChangeInstance.all_ok e s ->
+  MoreEntry.jo_res (MoreEntry.percent_entry orc ask_col fuel utxos addr extra addr_b pct s c o) = Ok tt ->
+  ChangeInstance.all_ok e (MoreEntry.jo_st (MoreEntry.percent_entry orc ask_col fuel utxos addr extra addr_b pct s c o)) /\
+  EntryInstance.col_return_ok e (MoreEntry.jo_col (MoreEntry.percent_entry orc ask_col fuel utxos addr extra addr_b pct s c o)).
+Proof.
+  intros O orc ask_col e SE CE fuel utxos addr extra addr_b pct s c o A R.
+  exact (EntryInstance.percent_entry_ok orc ask_col e SE CE fuel utxos addr extra addr_b pct s c o (or_introl A) R).
+Qed.
+Print Assumptions C07_collateral_return_entry_point.
+
 (* pack_nfts_for_change on C05's model with the concrete value-size answers: every bundle it returns is empty, or the
    bundle of a value that was tested and FITS max_value_size (at the coin it was tested with; any other coin moves the
    size by at most 8 bytes), or the re-normalisation v + {policy: {}} of such a value -- provided every single asset of
@@ -216,7 +249,7 @@ Theorem C07_pack_bundles_fit :
      value_size c (ChangeInstance.shape_ma (Value.multiasset_of v)) <= c_max_value_size (ChangeInstance.ce_cfg e) + 8).
 Proof.
   intros O orc e SE ce ma s o l Ema SF R. split.
-  - destruct (ChangeInstance.pack_nfts_fits orc e SE (fun _ => True) ce ma Ema SF s o I I) as [_ Q].
+  - destruct (ChangeInstance.pack_nfts_fits orc e SE (fun _ => True) (fun _ => True) ce ma Ema SF s o I I) as [_ Q].
     rewrite R in Q. exact (proj2 Q).
   - intros v c F. exact (ChangeInstance.fits_any_coin e v c F).
 Qed.
